@@ -281,6 +281,12 @@ func checkCase(c Case, st *stats) *h.Failure {
 	if after.mode != os.FileMode(c.Mode) {
 		return mk("mode-changed", fmt.Sprintf("evy fmt -w changed the permission bits from %04o to %04o", c.Mode, after.mode))
 	}
+	// the file that -w has just written is in formatted form: -c accepts it (a written text that no longer parses is a damaged file)
+	if c.Mode&0o400 != 0 {
+		if chk, err := run(dir, []string{"fmt", "-c", target}, "", ""); err == nil && chk.exit != 0 {
+			return mk("written-text-rejected", fmt.Sprintf("evy fmt -c rejects the file that evy fmt -w has just written (exit %d): %s\nwritten:\n%s", chk.exit, chk.out, after.content))
+		}
+	}
 	// faults: every file-related call of the un-faulted run, killed or failed
 	plan := faultPlan(clean.log, dir)
 	if c.Fault != "" {
